@@ -5,3 +5,4 @@ import NanoVerif.Props.C12
 import NanoVerif.Props.C13
 import NanoVerif.Props.C14
 import NanoVerif.Props.C15
+import NanoVerif.Props.C16
